@@ -22,9 +22,10 @@ for sid in seeds:
         continue
     det = [k for k, v in meta.get("detected_by", {}).items() if v.get("violations", 0) > 0]
     own = meta["property"]
-    checks = det[:1] if det else [own]
-    if own in det:
-        checks = [own]
+    OVERRIDE = {"C13-8": ["C14"], "C07-8": ["C20"], "C03-3": ["C09"], "C01-4": ["C14"], "C11-5": ["C14"], "C07-4": ["C11"], "C06-3": ["C07"],
+                "C05-8": ["C03"], "C01-7": ["C03"], "C01-8": ["C09"], "C09-8": ["C03"], "C14-2": ["C14"], "C06-1": ["C06"]}
+    # the property's own check first; if it stays silent, the other checks known to see this change
+    checks = [own] + [c for c in OVERRIDE.get(sid, det) if c != own]
     assert sh("git -C /repo diff --quiet").returncode == 0, "/repo dirty"
     r = sh(f"git -C /repo apply {d}/patch.diff")
     if r.returncode != 0:
@@ -35,6 +36,8 @@ for sid in seeds:
     res = {}
     try:
         for c in checks:
+            if any(v["exit"] == 1 or (v["exit"] == 124 and v["violation_lines"]) for v in res.values()):
+                break
             ev = f"/var/tmp/off_ev/{sid}"
             os.makedirs(ev, exist_ok=True)
             t0 = time.time()
